@@ -145,7 +145,7 @@ macro_rules! set_instance_like {
         match $f {
             "title" => $a.set_title(format!("title-{} ", $salt)),
             "authors1" => $a.set_authors(vec![format!("Ada Lovelace {}", $salt)]),
-            "authors3" => $a.set_authors(vec![" A. One".to_string(), format!("B Two {} ", $salt), "C-Three".to_string()]),
+            "authors3" => $a.set_authors(vec![String::new(), " A. One".to_string(), format!("B Two {} ", $salt), "C-Three".to_string()]),
             "created" => $a.set_created(instant(1)),
             "created-subsecond" => $a.set_created(instant(0)),
             "license" => $a.set_license(format!("MIT-{}", $salt)),
@@ -174,7 +174,7 @@ macro_rules! check_instance_like {
             }
             "authors3" => {
                 let got: Option<Vec<String>> = $a.authors().ok().map(|i| i.map(|s| s.to_string()).collect());
-                if got != Some(vec![" A. One".to_string(), format!("B Two {} ", $salt), "C-Three".to_string()]) {
+                if got != Some(vec![String::new(), " A. One".to_string(), format!("B Two {} ", $salt), "C-Three".to_string()]) {
                     $bad.push(format!("authors read back as {got:?}"));
                 }
             }
